@@ -369,8 +369,12 @@ func (db *DB) AcquireRemoteHaltLock(ctx context.Context, lockID int64) (_ *HaltL
 	}
 	defer func() {
 		if retErr != nil {
-			// The lock is given back: this node is not its holder.
-			db.remoteHaltLock.CompareAndSwap(haltLock, (*HaltLock)(nil))
+			// The lock is given back: this node is not its holder. Unset it the
+			// way a release does (under the write lock, after recovery), as the
+			// node may have held the same lock before this request.
+			if err := db.UnsetRemoteHaltLock(ctx, haltLock.ID); err != nil {
+				log.Printf("cannot unset remote halt lock after acquisition error: %s", err)
+			}
 
 			if err := db.store.Client.ReleaseHaltLock(ctx, info.AdvertiseURL, db.store.ID(), db.name, haltLock.ID); err != nil {
 				log.Printf("cannot release remote halt lock after acquisition error: %s", err)
